@@ -185,14 +185,27 @@ def find_function(tree, name):
 
 
 def raising_ifs(fn):
-    """(test, exception-class-name) for every `if test: raise Exc(...)` in fn, in order."""
+    """(condition, exception-class-name) for every `raise Exc(...)` guarded by `if`s in fn, in order.
+    The condition is the conjunction of the tests of ALL enclosing `if`s (negated for `else`
+    branches), so that moving a check under another condition changes the translated guard."""
     out = []
-    for n in ast.walk(fn):
-        if isinstance(n, ast.If):
-            for s in n.body:
-                if isinstance(s, ast.Raise) and s.exc is not None:
-                    exc = s.exc.func if isinstance(s.exc, ast.Call) else s.exc
-                    out.append((n.test, ast.unparse(exc)))
+
+    def conj(parts):
+        return parts[0] if len(parts) == 1 else ast.BoolOp(op=ast.And(), values=list(parts))
+
+    def visit(stmts, path):
+        for st in stmts:
+            if isinstance(st, ast.If):
+                visit(st.body, path + [st.test])
+                visit(st.orelse, path + [ast.UnaryOp(op=ast.Not(), operand=st.test)])
+            elif isinstance(st, ast.Raise) and st.exc is not None and path:
+                exc = st.exc.func if isinstance(st.exc, ast.Call) else st.exc
+                out.append((conj(path), ast.unparse(exc)))
+            elif isinstance(st, (ast.For, ast.While, ast.With)):
+                visit(st.body, path)
+            elif isinstance(st, ast.Try):
+                visit(st.body, path)
+    visit(fn.body, [])
     return out
 
 
@@ -451,6 +464,17 @@ def sec_authdata_guards():
     return "\n".join(out)
 
 
+def up_uv_guards(fn, ifs):
+    """the raise whose *innermost* test mentions flags.up (resp. flags.uv), with its full path condition"""
+    def innermost(t):
+        return t.values[-1] if isinstance(t, ast.BoolOp) and isinstance(t.op, ast.And) else t
+    up = [t for t, exc in ifs if mentions(innermost(t), lambda s: s.endswith("flags.up"))]
+    uv = [t for t, exc in ifs if mentions(innermost(t), lambda s: s.endswith("flags.uv"))]
+    if len(up) != 1 or len(uv) != 1:
+        raise Untranslatable(f"UP/UV guards not unique in {fn.name} ({len(up)}, {len(uv)})")
+    return up, uv
+
+
 def sec_auth_guards():
     tree = src_tree("webauthn/authentication/verify_authentication_response.py")
     fn = find_function(tree, "verify_authentication_response")
@@ -467,21 +491,15 @@ def sec_auth_guards():
     leaves = [(lambda s: s.endswith("flags.up"), ("up", "bool")), (lambda s: s.endswith("flags.uv"), ("uv", "bool")),
               ("require_user_verification", ("require_uv", "bool")), ("require_user_presence", ("require_up", "bool"))]
     tr = T2(leaves)
-    up = [t for t, exc in ifs if mentions(t, lambda s: s.endswith("flags.up"))]
-    uv = [t for t, exc in ifs if mentions(t, lambda s: s.endswith("flags.uv"))]
-    if len(up) != 1 or len(uv) != 1:
-        raise Untranslatable("UP/UV guards not unique in authentication")
-    out.append(f"def authUpRejects (up : Bool) : Bool := {tr.tr(up[0])[0]}\n")
-    out.append(f"def authUvRejects (require_uv uv : Bool) : Bool := {tr.tr(uv[0])[0]}\n")
+    up, uv = up_uv_guards(fn, ifs)
+    out.append(f"def authUpRejects (require_uv up uv : Bool) : Bool := {tr.tr(up[0])[0]}\n")
+    out.append(f"def authUvRejects (require_uv up uv : Bool) : Bool := {tr.tr(uv[0])[0]}\n")
     tree = src_tree("webauthn/registration/verify_registration_response.py")
     fn = find_function(tree, "verify_registration_response")
     ifs = raising_ifs(fn)
-    up = [t for t, exc in ifs if mentions(t, lambda s: s.endswith("flags.up"))]
-    uv = [t for t, exc in ifs if mentions(t, lambda s: s.endswith("flags.uv"))]
-    if len(up) != 1 or len(uv) != 1:
-        raise Untranslatable("UP/UV guards not unique in registration")
-    out.append(f"def regUpRejects (require_up up : Bool) : Bool := {tr.tr(up[0])[0]}\n")
-    out.append(f"def regUvRejects (require_uv uv : Bool) : Bool := {tr.tr(uv[0])[0]}\n")
+    up, uv = up_uv_guards(fn, ifs)
+    out.append(f"def regUpRejects (require_up require_uv up uv : Bool) : Bool := {tr.tr(up[0])[0]}\n")
+    out.append(f"def regUvRejects (require_up require_uv up uv : Bool) : Bool := {tr.tr(uv[0])[0]}\n")
     return "\n".join(out)
 
 
@@ -625,10 +643,10 @@ def build_text():
           "".join(f"def flag_{k} (flags_byte : Nat) : Bool := Fallback.flag_{k} flags_byte\n" for k in ("up", "uv", "be", "bs", "at", "ed")))
     S.add("policy-guards", sec_auth_guards,
           "def signCountRejects (sign_count current : Int) : Bool := Fallback.signCountRejects sign_count current\n"
-          "def authUpRejects (up : Bool) : Bool := Fallback.authUpRejects up\n"
-          "def authUvRejects (require_uv uv : Bool) : Bool := Fallback.authUvRejects require_uv uv\n"
-          "def regUpRejects (require_up up : Bool) : Bool := Fallback.regUpRejects require_up up\n"
-          "def regUvRejects (require_uv uv : Bool) : Bool := Fallback.regUvRejects require_uv uv\n")
+          "def authUpRejects (require_uv up uv : Bool) : Bool := Fallback.authUpRejects require_uv up uv\n"
+          "def authUvRejects (require_uv up uv : Bool) : Bool := Fallback.authUvRejects require_uv up uv\n"
+          "def regUpRejects (require_up require_uv up uv : Bool) : Bool := Fallback.regUpRejects require_up require_uv up uv\n"
+          "def regUvRejects (require_up require_uv up uv : Bool) : Bool := Fallback.regUvRejects require_up require_uv up uv\n")
     S.add("safetynet-guards", sec_safetynet_guards,
           "def safetynetTimestampRejects (timestamp_ms now_seconds : Int) : Bool := Fallback.safetynetTimestampRejects timestamp_ms now_seconds\n")
     S.add("defaults", sec_defaults,
